@@ -26,6 +26,7 @@ func init() {
 			c03R8(c, "C03.R8")
 			ruleOncePublication(c, "C03.R9") // "entry points may be called from any number of goroutines without data races": lazy free-list load of read-only databases
 			c08R2(c, "C03.R10") // "or never": a failed commit restores the allocator from the committed state before the next writer starts
+			ruleMetaSlot(c, "C03.R11") // "committed write transactions carry consecutive increasing ids": txid advances by exactly one, only when a writer starts; readers take the committed meta's id
 			ruleRollbackUndoesFrees(c, "C03.R7") // "or never, if it is rolled back": an aborted writer leaves no trace in the free list
 		},
 	})
